@@ -1,6 +1,7 @@
 """C14 — coroutine Mutex: mutual exclusion and no lost wake-up (DESIGN.md §3 C14)."""
 from vlib import common as C
 from vlib import conc
+from vlib import memsearch
 
 RULES = ['tlLoad.free', 'tlLoad.locked', 'tlLoad.locked.try', 'tlCasOk', 'tlCasFail', 'tlCasFail.try', 'tryFail',
          'alLoad.free', 'alLoad.locked', 'alCasLock', 'alCasPush', 'alCasFail.spurious', 'alCasFail.changed',
@@ -27,7 +28,11 @@ def run(res, tier):
         search_args=[['--mode', 'dfs', '--pb', '3', '--wb', '1', '--max-exec', '60000'],
                      ['--mode', 'random', '--random-runs', '3000']],
         unmodelled_ok=STALE)
+    # an obligation broke and no schedule shows anything: search the memory-model clause ("what one critical section wrote
+    # is visible in the next") with the C04 machinery restricted to the mutex (vlib/memsearch.py)
+    memsearch.refine_no_input(res, 'C14', tier, ['include/yaclib/coro/mutex.hpp'], 'comutex')
 
 
 def replay(path):
-    return conc.replay('C14', path)
+    r = memsearch.replay(path)
+    return conc.replay('C14', path) if r is None else r
